@@ -424,7 +424,7 @@ impl Future for RecvFut<'_> {
             }
         }
         if let Some(id) = net.visible[from][me].pop_front() {
-            let data = net.msgs[id].wire.clone().unwrap_or_default();
+            let data = if net.keep_bytes { net.msgs[id].wire.clone().unwrap_or_default() } else { net.msgs[id].wire.take().unwrap_or_default() };
             let lid = self.label_id;
             net.ev(EvKind::RecvDone, me, from, lid, data.len(), id);
             net.out_recv[me][from] -= 1;
